@@ -30,6 +30,11 @@ PLAN = {
     },
     "C05": {"drive": [D("evaluate", 2000, 100000)]},
     "C06": {"drive": [D("samples", 1000, 50000)]},
+    "C08": {
+        "gen": [G("faults", "Gen_Validate.cfg", module="Gen_Validate.tla")],
+        "drive": [D("validate", 500, 20000)],
+        "exhaustive_note": "every single fault (quick) / every ordered pair of faults (thorough) of two base instances: duplicate ids (vars; constraints within and across lists), undefined ids at each position, each required field unset, each invalid bound shape, repeated ids in hints",
+    },
     "C09": {"drive": [D("penalty", 1000, 50000)]},
     "C10": {"drive": [D("with_parameters", 1500, 60000)]},
     "C11": {"drive": [D("pubo", 1000, 40000)]},
@@ -51,6 +56,11 @@ OWN = {
     "C04": {"subst_fn": "*", "inst_subst": "*", "deps_order": "*"},
     "C05": {"drive": [D("evaluate", 2000, 100000)]},
     "C06": {"drive": [D("samples", 1000, 50000)]},
+    "C08": {
+        "gen": [G("faults", "Gen_Validate.cfg", module="Gen_Validate.tla")],
+        "drive": [D("validate", 500, 20000)],
+        "exhaustive_note": "every single fault (quick) / every ordered pair of faults (thorough) of two base instances: duplicate ids (vars; constraints within and across lists), undefined ids at each position, each required field unset, each invalid bound shape, repeated ids in hints",
+    },
     "C09": {"drive": [D("penalty", 1000, 50000)]},
     "C10": {"drive": [D("with_parameters", 1500, 60000)]},
     "C11": {"drive": [D("pubo", 1000, 40000)]},
@@ -61,6 +71,7 @@ OWN = {
     "C16": {"bound_op": "*", "eval_bound": "*", "content_factor": "*"},
     "C05": {"evaluate": "*"},
     "C06": {"evaluate_samples": "*"},
+    "C08": {"validate": "*", "pvalidate": "*", "typed": "*"},
     "C09": {"penalty": "*", "uniform_penalty": "*"},
     "C10": {"with_parameters": "*", "to_parametric": "*"},
     "C11": {"pubo": "*", "qubo": "*"},
